@@ -7,7 +7,8 @@
   configure.loadConfigure, `applyOptions` the option fold of App.Run starting from configure.Default().
   Documents are Go maps: `Cfg.wf` (unique keys per map) is the representation invariant, not a restriction.
   Several Initialize calls on one live Configure: `St` (stored loader list + binder content), `stepOpt`, `initOnce`,
-  `runPhase`.  The last two theorems tie the REGENERATED source of configure.go (loadConfigure, Initialize) to the loop
+  `runPhase`.  Several Apps in one process with sources registered through `app.Settings`: `runApp`, `runProc`
+  (`C15_history_splits` … `C15_registered_source_is_loaded`).  The code theorems tie the REGENERATED source of configure.go (loadConfigure, Initialize) to the loop
   the model mirrors, so an edit of that file is a C15 proof obligation.
 -/
 import IocProofs.Lemmas.Config
@@ -509,5 +510,96 @@ theorem C15_code_Run_applies_global_options (p : Sem.ARP) (ops : List Nat) (w : 
       (if p.initErr.isSome && !p.fatalReturns then none
        else some (Sem.encOptE p.runErr, w ++ (ops ++ p.globals).map Sem.ACall.option ++ [.initiate, .run])) :=
   Sem.appRun_sem p ops w
+
+/-! ### several Apps in one process: sources registered through `app.Settings` (`runApp`, `runProc`)
+
+    `C15_code_Run_applies_global_options` above is the code tie (the regenerated `Run` walks the call's options and then
+    ALL package-level ones on every call); these are the property-level consequences in the configuration model. -/
+
+/-- THE REGISTERED OPTIONS ARE NOT USED UP: the Apps started after a stretch `pre` of a process history are started with
+    everything that was registered before and during it — the earlier Apps take nothing away. -/
+theorem C15_history_splits (g : List Opt) (pre rest : List ProcStep) :
+    runProc g (pre ++ rest) = runProc g pre ++ runProc (g ++ registeredBy pre) rest := by
+  induction pre generalizing g with
+  | nil => simp [runProc, registeredBy]
+  | cons st more ih =>
+    cases st with
+    | settings ops => simp [runProc, registeredBy, ih, List.append_assoc]
+    | newApp ops => simp [runProc, registeredBy, ih]
+
+/-- … so EVERY App of a history — the first, the second, the tenth — is `runApp` on all options registered before its
+    start: its result does not depend on how many Apps were started before it. -/
+theorem C15_every_app_gets_registered (g : List Opt) (pre rest : List ProcStep) (ops : List Opt) :
+    (runProc g (pre ++ .newApp ops :: rest))[(runProc g pre).length]? = some (runApp (g ++ registeredBy pre) ops) := by
+  rw [C15_history_splits]
+  simp [runProc]
+
+/-- under add-type registered options the configured list of an App is its own list followed by every registered loader,
+    in the order of registration (whatever its own options were, set-type ones included) -/
+theorem C15_registered_sources_configured (globals ops : List Opt) (hadd : ∀ o ∈ globals, isAddOpt o = true) :
+    applyOptions (ops ++ globals) = applyOptions ops ++ globals.flatMap addedBy := by
+  unfold applyOptions
+  suffices h : ∀ init, applyFrom init globals = init ++ globals.flatMap addedBy by
+    simp only [applyFrom, List.foldl_append] at h ⊢
+    exact h _
+  intro init
+  induction globals generalizing init with
+  | nil => simp [applyFrom]
+  | cons o rest ih =>
+    have ho := hadd o List.mem_cons_self
+    have hr := ih (fun x hx => hadd x (List.mem_cons_of_mem _ hx))
+    simp only [applyFrom, List.foldl_cons] at hr ⊢
+    cases o <;> simp_all [isAddOpt, applyStep, addedBy, List.flatMap_cons]
+
+/-- A REGISTERED SOURCE IS A SOURCE OF EVERY APP: a loader `l` registered through `app.Settings` with an add-type option
+    (AddConfigLoader / SetConfig(file) / Configure.AddLoaders) is loaded by any App started afterwards — whatever the App's
+    own options — and every path of its document is visible in that App's configuration. -/
+theorem C15_registered_source_is_loaded (globals ops : List Opt) (hadd : ∀ o ∈ globals, isAddOpt o = true)
+    (o : Opt) (ho : o ∈ globals) (l : Loader) (hl : l ∈ addedBy o) (d : Cfg) (hd : docOf l = some d)
+    (hgood : ∀ x ∈ applyOptions (ops ++ globals), x.good = true)
+    (hwf : ∀ e ∈ docsOf (applyOptions (ops ++ globals)), e.wf = true) :
+    ∃ s', runApp globals ops = .ok s' ∧ l ∈ s'.loaders ∧ ∀ p, (d.get p).isSome = true → (s'.acc.get p).isSome = true := by
+  have hmem : l ∈ applyOptions (ops ++ globals) := by
+    rw [C15_registered_sources_configured globals ops hadd]
+    exact List.mem_append_right _ (List.mem_flatMap.mpr ⟨o, ho, hl⟩)
+  have e : (ops ++ globals).foldl stepOpt St.app = ⟨applyOptions (ops ++ globals), .map []⟩ :=
+    foldl_stepOpt_fresh [defaultLoader] (ops ++ globals)
+  refine ⟨⟨loaderSeq (applyOptions (ops ++ globals)), (docsOf (applyOptions (ops ++ globals))).foldl merge (.map [])⟩, ?_, ?_, ?_⟩
+  · simp only [runApp, runPhase, e]
+    exact initOnce_good ⟨applyOptions (ops ++ globals), .map []⟩ hgood
+  · exact (loaderSeq_perm _).mem_iff.mpr hmem
+  · intro p hp
+    exact isSome_fold_of_mem _ _ p hwf d (List.mem_filterMap.mpr ⟨l, (loaderSeq_perm _).mem_iff.mpr hmem, hd⟩) hp
+
+section procExamples
+/-- the history of seeded change C15R: one raw document registered, then three Apps, each with a raw document and a
+    config file of its own -/
+def gDoc : Cfg := .map [(ofString "global", .map [(ofString "only", sv "g")]), (ofString "shared", .map [(ofString "global", sv "true")])]
+def aRaw (i : String) : Cfg := .map [(ofString "raw", .map [(ofString "only", sv i)]), (ofString "shared", .map [(ofString "from", sv "raw")])]
+def aFile (i : String) : Cfg := .map [(ofString "file", .map [(ofString "only", sv i)]), (ofString "shared", .map [(ofString "from", sv "file")])]
+def pHist : List ProcStep :=
+  [.settings [.addLoaders [lRaw 1 gDoc]],
+   .newApp [.addLoaders [lRaw 2 (aRaw "1")], .setConfig (fileLoader 3 (.doc (aFile "1")))],
+   .newApp [.addLoaders [lRaw 4 (aRaw "2")], .setConfig (fileLoader 5 (.doc (aFile "2")))],
+   .newApp [.addLoaders [lRaw 6 (aRaw "3")], .setConfig (fileLoader 7 (.doc (aFile "3")))]]
+def pSee (r : Except Bool St) : Option (List Nat × Option Cfg × Option Cfg × Option Cfg) :=
+  r.toOption.map fun s => (s.loaders.map (·.id), s.acc.get [ofString "global", ofString "only"],
+    s.acc.get [ofString "shared", ofString "global"], s.acc.get [ofString "shared", ofString "from"])
+-- every App — not only the first — holds the registered loader (#1) and shows its keys; the file is read first
+example : (runProc [] pHist).map pSee =
+    [some ([3, 0, 2, 1], some (sv "g"), some (sv "true"), some (sv "raw")),
+     some ([5, 0, 4, 1], some (sv "g"), some (sv "true"), some (sv "raw")),
+     some ([7, 0, 6, 1], some (sv "g"), some (sv "true"), some (sv "raw"))] := by decide
+-- hypotheses of C15_registered_source_is_loaded for the second App
+example : let globals : List Opt := [.addLoaders [lRaw 1 gDoc]]
+    let ops : List Opt := [.addLoaders [lRaw 4 (aRaw "2")], .setConfig (fileLoader 5 (.doc (aFile "2")))]
+    (∀ o ∈ globals, isAddOpt o = true) ∧ (globals.flatMap addedBy).map (·.id) = [1] ∧
+    docOf (lRaw 1 gDoc) = some (insens gDoc) ∧ (∀ x ∈ applyOptions (ops ++ globals), x.good = true) ∧
+    (∀ e ∈ docsOf (applyOptions (ops ++ globals)), e.wf = true) ∧
+    ((registeredBy (pHist.take 2)).flatMap addedBy).map (·.id) = [1] := by decide
+-- a registration between two Apps reaches the Apps started after it, not the one started before
+example : ((runProc [] [.newApp [], .settings [.setConfig (fileLoader 1 (.doc gDoc))], .newApp [], .newApp [.setLoaders []]]).map pSee).map
+      (fun r => r.map (·.1)) = [some [0], some [1, 0], some [1]] := by decide
+end procExamples
 
 end Ioc.C15
